@@ -47,21 +47,35 @@ pub trait Next: Sized { fn next(&self) -> Self; }
 
 // ---- specification vocabulary (written from the statement of C13, not from the code) ----------
 
-/// declaration order of `Prec` - what `derive(PartialOrd)` compares (assumption A-derive-ord,
-/// discharged on the real crate by the Kani harness of the thorough tier)
+/// the documented order of the levels (written from the statement)
 pub open spec fn rank(p: Prec) -> int {
     match p {
         Prec::No => 0, Prec::Assert => 1, Prec::BoolOr => 2, Prec::BoolAnd => 3, Prec::Comp => 4,
         Prec::Term => 5, Prec::Factor => 6, Prec::Index => 7, Prec::Arrow => 8,
     }
 }
+/// position of each variant in the declaration found in /repo (generated on every run): what
+/// `derive(PartialOrd)` compares by (assumption A-derive-ord, discharged on the real crate by the
+/// Kani harness of the thorough tier)
+//@ declorder sylt-parser/src/parser.rs Prec decl_rank
 impl PartialOrdSpecImpl for Prec {
     open spec fn obeys_partial_cmp_spec() -> bool { true }
     open spec fn partial_cmp_spec(&self, other: &Prec) -> Option<Ordering> {
-        if rank(*self) < rank(*other) { Some(Ordering::Less) }
-        else if rank(*self) > rank(*other) { Some(Ordering::Greater) }
+        if decl_rank(*self) < decl_rank(*other) { Some(Ordering::Less) }
+        else if decl_rank(*self) > decl_rank(*other) { Some(Ordering::Greater) }
         else { Some(Ordering::Equal) }
     }
+}
+/// the declaration order in the repository is the documented order
+proof fn lemma_declaration_order_is_documented_order()
+    ensures forall|p: Prec| decl_rank(p) == rank(p), //# C13 prec.declaration_order_is_documented_order
+{
+}
+/// how the executable comparison `a <= b` on Prec relates to the documented order
+proof fn lemma_prec_le(a: Prec, b: Prec)
+    ensures decl_rank(a) == rank(a), decl_rank(b) == rank(b),
+{
+    lemma_declaration_order_is_documented_order();
 }
 
 /// The table of the property: `<=>` loosest (1), `or`, `and`, comparisons, `+ -`, `* /` tightest (6).
